@@ -118,7 +118,7 @@ CHECKS["C18"] = dict(
     engine="symx+z3",
     technique="bounded symbolic execution (symx/z3): node flags and the three format options are z3 Bools flowing into the real _format code; oracle = a reader written from the documented marker grammar",
     text="For 7 tree shapes (frames > contexts > inner stacks / child contexts / child task stacks: populated, stub, without root; leaf; errors incl. multi-line) with every combination of the symbolic flags (hide, hide_line, is_exiting, start_line presence; thorough also is_async / obj presence on more nodes), marker look-alike descriptions and varnames, and all 8 option combinations: every line is a single newline-terminated line, str() is the concatenation, the Unicode text reads back to exactly the object's visible structure, the ASCII text is the per-marker substitution of the Unicode text, show_contexts=False prints exactly the frame series.",
-    note="Strings containing newlines and symbolic strings are outside; the number of flagged nodes per shape is bounded (quick: 1 frame, 2 contexts, 1 text; thorough: 2/3/2).",
+    note="Strings containing newlines and symbolic strings are outside; the number of flagged nodes per shape is bounded (quick: 1 frame, 2 contexts, 1 text; thorough: 2 frames, 2 contexts (one of them also with is_async / obj presence), 1 text).",
     ref="DESIGN.md 5.C18",
 )
 CHECKS["C19"] = dict(
@@ -145,10 +145,17 @@ CHECKS["C09"] = dict(
     ref="DESIGN.md 5.C09",
 )
 
+CHECKS["C14"] = dict(
+    engine="symx+z3",
+    technique="bounded symbolic execution (symx/z3) of the real Trio glue over solver-enumerated task-tree shapes and thread-hop chains, each path a deterministic real trio.run; oracle = Trio's own child_nurseries / child_tasks and the construction order of the hops",
+    text="Task trees of depth <= 2 (thorough 3), fan-out <= 2, <= 2 nested nurseries per task (57 shapes quick, several hundred thorough), each task blocked in its innermost body or in a nursery's __aexit__, 4 nursery-body endings, recurse_child_tasks on/off: each open nursery appears once in nesting order with obj the trio.Nursery and children exactly its child tasks (by root identity), recursively, no error, no warning. to_thread/from_thread alternation depth 0..3 (thorough 5), observed by another task and by the innermost level: the visible frames continue through every level in order with the bridging internals hidden.",
+    note="LOW SOLVER LEVERAGE. Every run is deterministic: tasks observed after wait_all_tasks_blocked(), threads parked on Events; free-running threads are outside. F2 shapes (nursery body ending in try/except or `if: return`, task blocked in that nursery's __aexit__) are reported as KNOWN-FINDING. DESIGN.md 5.C14 explains why this was first declared not applicable and what changed.",
+    ref="DESIGN.md 0a / 5.C14",
+)
+
 NOT_APPLICABLE = {
     "C06": "Quantifies over interpreter bookkeeping (reference counts, object lifetime, crashes) behind a ctypes boundary; no value a solver can range over, and any symbolic engine perturbs the very refcounts measured (DESIGN.md 5.C06).",
     "C07": "OS-thread interleavings against raw-memory reads; depends on when CPython releases the GIL, not on Python-level data; needs a runtime schedule controller, a different technique family (DESIGN.md 5.C07).",
-    "C14": "Needs trio.run plus worker threads whose blocking points are decided by Trio's scheduler and the OS; nothing in the glue branches on data that can be made symbolic (DESIGN.md 5.C14).",
 }
 
 PENDING_REASON = "check planned in DESIGN.md section 5 but not built yet at this commit"
